@@ -250,10 +250,34 @@ func TestVerif_C09_History(t *testing.T) {
 		accepted, revocations, interesting := 0, 0, false
 		serials := []int64{21, 22, 23}
 		steps := rapid.IntRange(3, 10).Draw(t, "steps")
+		// follow-ups that make the rare orders likely: a certificate that was just served gets
+		// revoked; a revocation is followed by an outage of the chain node and another request
+		var forced []int
+		forcedSerial := int64(0)
 		for i := 0; i < steps; i++ {
 			s := rapid.SampledFrom(serials).Draw(t, "serial")
+			op := rapid.IntRange(0, 6).Draw(t, "op")
+			if len(forced) > 0 {
+				op, s = forced[0], forcedSerial
+				forced = forced[1:]
+			}
 			r := regs[s]
-			switch rapid.IntRange(0, 5).Draw(t, "op") {
+			if op == 2 && r != nil && !r.revoked && rapid.Bool().Draw(t, "outageAfterRevocation") {
+				chain.mu.Lock()
+				isDown := chain.down
+				chain.mu.Unlock()
+				if !isDown {
+					forced, forcedSerial = []int{6, 3}, s
+				}
+			}
+			switch op {
+			case 6: // the chain node becomes unreachable / reachable again
+				chain.mu.Lock()
+				chain.down = !chain.down
+				down := chain.down
+				chain.mu.Unlock()
+				hist = append(hist, fmt.Sprintf("chain-unreachable(%v)", down))
+				interesting = interesting || (down && revocations > 0)
 			case 0, 1: // register
 				if r != nil {
 					continue
@@ -310,6 +334,11 @@ func TestVerif_C09_History(t *testing.T) {
 				if accepted > 0 && revocations > 0 {
 					interesting = true
 				}
+				chain.mu.Lock()
+				if chain.down && expect == "accept" {
+					expect = "any" // validity cannot be established right now: refusing is fine, accepting a valid certificate is not a violation
+				}
+				chain.mu.Unlock()
 				verr := cfg.VerifyPeerCertificate([][]byte{der}, nil)
 				hist = append(hist, fmt.Sprintf("present(%d,%s)->%v", s, kind, verr == nil))
 				if expect == "accept" && verr != nil {
